@@ -347,6 +347,7 @@ void vlogu(uint64_t x) { vpush(x); }
 void vlogf(float x) { vpushf(x); }
 void vlogd(double x) { vpushd(x); }
 int32_t vnext(void) { int k; if (scanf("%d", &k) != 1) return -1; return k; }
+int32_t vmark(int32_t k) { return (int32_t)((0x5A000000u + (uint32_t)k) & 0x7FFFFFFFu); }
 void vbegin(int32_t k) { vlog_n = 0; printf("B %d\n", k); fflush(stdout); }
 void vend(int32_t k) { printf("K %d", k); for (int i = 0; i < vlog_n; i++) printf(" %llx", (unsigned long long)vlog_buf[i]); printf("\n"); fflush(stdout); }
 '''
@@ -354,7 +355,7 @@ void vend(int32_t k) { printf("K %d", k); for (int i = 0; i < vlog_n; i++) print
 C_LOG_DECL = r'''
 void vpush(uint64_t x); void vpushf(float x); void vpushd(double x);
 void vlogu(uint64_t x); void vlogf(float x); void vlogd(double x);
-int32_t vnext(void); void vbegin(int32_t k); void vend(int32_t k);
+int32_t vnext(void); void vbegin(int32_t k); void vend(int32_t k); int32_t vmark(int32_t k);
 '''
 
 MARKER_BASE = 0x5A000000
@@ -370,10 +371,11 @@ class Case:
           'cbi'  C -> Go   callback  int32 g(pre.., T, post..)
     """
 
-    def __init__(self, idx, kind, shape_idx, t, pre, post, rng, closure=False):
+    def __init__(self, idx, kind, shape_idx, t, pre, post, rng, closure=False, capture=False):
         self.idx, self.kind, self.shape_idx, self.t = idx, kind, shape_idx, t
         self.pre, self.post = pre, post          # lists of scalar codes
-        self.closure = closure
+        self.closure = closure or capture
+        self.capture = capture and kind == "cbi"   # the func literal captures a local variable (the value it returns)
         self.pre_v = [rand_value(rng, c) for c in pre]
         self.post_v = [rand_value(rng, c) for c in post]
         self.arg_v = rand_values(rng, t)
@@ -419,7 +421,7 @@ class Case:
 
     def describe(self):
         return {"case": self.idx, "kind": self.kind, "shape": code(self.t), "pre": "".join(self.pre), "post": "".join(self.post),
-                "closure": self.closure, "sig": " ".join(self.sig_words())}
+                "closure": self.closure, "capture": self.capture, "sig": " ".join(self.sig_words())}
 
 
 def build_sources(shapes, cases):
@@ -437,7 +439,7 @@ def build_sources(shapes, cases):
     go = ["package main", "", 'import "unsafe"', "", "const (", '\tLLGoFiles   = "@LLGOFILES@"', '\tLLGoPackage = "@LLGOPACKAGE@"', ")", "",
           "//go:linkname vlogu C.vlogu", "func vlogu(x uint64)", "//go:linkname vlogf C.vlogf", "func vlogf(x float32)",
           "//go:linkname vlogd C.vlogd", "func vlogd(x float64)", "//go:linkname vnext C.vnext", "func vnext() int32",
-          "//go:linkname vbegin C.vbegin", "func vbegin(k int32)", "//go:linkname vend C.vend", "func vend(k int32)", "",
+          "//go:linkname vmark C.vmark", "func vmark(k int32) int32", "//go:linkname vbegin C.vbegin", "func vbegin(k int32)", "//go:linkname vend C.vend", "func vend(k int32)", "",
           "var _ = unsafe.Pointer(nil)", ""]
     ref = ['#include "shapes.h"', ""]
     for i in used:
@@ -503,10 +505,12 @@ def build_sources(shapes, cases):
                 gretx = "vr%d" % k
             else:
                 gretx = str(cs.marker)
-            if cs.closure:
-                go.append("func case%d() { d%d(func(%s) %s { %s; return %s }) }" % (k, k, ", ".join(gparams), gret, gbody, gretx))
+            if cs.capture:
+                go.append("func case%d() { m := vmark(%d); d%d(func(%s) %s { %s; return m }) }" % (k, k, k, ", ".join(gparams), gret, gbody or "_ = 0"))
+            elif cs.closure:
+                go.append("func case%d() { d%d(func(%s) %s { %s; return %s }) }" % (k, k, ", ".join(gparams), gret, gbody or "_ = 0", gretx))
             else:
-                go.append("func g%d(%s) %s { %s; return %s }" % (k, ", ".join(gparams), gret, gbody, gretx))
+                go.append("func g%d(%s) %s { %s; return %s }" % (k, ", ".join(gparams), gret, gbody or "_ = 0", gretx))
                 go.append("func case%d() { d%d(g%d) }" % (k, k, k))
             if cs.ret_struct():
                 ref.append(cval_r)
